@@ -15,13 +15,19 @@ N-IFEXP  ``return a if c else b`` -> ``if c: return a / else: return b``; ``x = 
 N-TESTVAR ``t = E; if t: ...`` -> ``if E: ...`` when ``t`` is read nowhere else in the function
 N-LOOP   ``acc = []; for x in xs: [t = f(x);] acc.append(g(t))``  ->  ``acc = [g(f(x)) for x in xs]`` - also
          nested loops, one ``if`` filter without else, ``acc += [e]``, ``d = {}; d[k] = v`` (dict
-         comprehension) and ``s = set(); s.add(e)``.  A body ``if c: d[k] = a else: d[k] = b`` whose arms each
+         comprehension; ``d = OrderedDict()`` gives ``OrderedDict({k: v for ...})``) and ``s = set(); s.add(e)``.  A body ``if c: d[k] = a else: d[k] = b`` whose arms each
          feed the accumulator exactly once becomes the element ``k: a if c else b`` (same for append/add, elif
          chains nest; the test is evaluated once per element as before); ``if c: A; continue`` followed by REST is
          read as ``if c: A else: REST`` and a guard ``if c: continue`` as the filter ``if not c``.  Temporaries of the body are inlined when they are
          assigned once, read once and not used outside the loop.  Preserves behaviour for side-effect
          free element expressions (the package's are: constructors of SymPy objects and pure helpers);
          the accumulator must not be mentioned between its creation and the loop
+N-PROP   inside a class, a read of a PRIVATE property ``self._p`` whose body is a single ``return E`` (E mentioning only
+         ``self`` and builtins) is replaced by ``E`` in the other methods of the class (what the read evaluates to; a
+         subclass overriding a private property of its base is not considered)
+N-WALRUS ``if (x := E) is not None:``  ->  ``x = E; if x is not None:`` (assignment expression that is the first thing the
+         test evaluates)
+N-SUPPRESS ``with contextlib.suppress(E): BODY``  ->  ``try: BODY / except E: pass`` (what the context manager does)
 N-CMP    ``K == x`` -> ``x == K`` for a literal K (same for ``!=``); for two non-literal operands the
          operand with the smaller source text goes left.  ``==``/``!=`` of the objects this package
          compares (ints, strings, symbols, tuples, sets) are symmetric; operands are not re-evaluated,
@@ -84,6 +90,49 @@ class _Normalizer(ast.NodeTransformer):
                 a.value = ast.copy_location(ast.ListComp(elt=a.value.elt, generators=a.value.generators), a.value)
         return node
 
+    # ---- N-PROP
+    def visit_ClassDef(self, node: ast.ClassDef):
+        import copy
+
+        props: dict[str, ast.AST] = {}
+        for st in node.body:
+            if (isinstance(st, ast.FunctionDef) and st.name.startswith("_") and not st.name.startswith("__")
+                    and any(ast.unparse(d) in {"property", "functools.cached_property", "cached_property"} for d in st.decorator_list)
+                    and len(st.args.args) == 1 and not st.args.defaults):
+                body = [b for b in st.body if not (isinstance(b, ast.Expr) and isinstance(b.value, ast.Constant))]
+                if len(body) == 1 and isinstance(body[0], ast.Return) and body[0].value is not None:
+                    me = st.args.args[0].arg
+                    value = body[0].value
+                    # the value may only mention `self` (no locals), and no other private property (no chains)
+                    names = {n.id for n in ast.walk(value) if isinstance(n, ast.Name) and isinstance(n.ctx, ast.Load)}
+                    bound = {n.id for n in ast.walk(value) if isinstance(n, ast.Name) and isinstance(n.ctx, ast.Store)}
+                    if me == "self" and names - bound - {"self"} <= set(dir(__builtins__) if not isinstance(__builtins__, dict) else __builtins__):
+                        props[st.name] = value
+        if props:
+            class _Inline(ast.NodeTransformer):
+                def visit_Attribute(self, n):  # noqa: N802
+                    self.generic_visit(n)
+                    if isinstance(n.ctx, ast.Load) and isinstance(n.value, ast.Name) and n.value.id == "self" and n.attr in props:
+                        return ast.copy_location(copy.deepcopy(props[n.attr]), n)
+                    return n
+
+            for st in node.body:
+                if isinstance(st, ast.FunctionDef) and st.name not in props:
+                    st.body = [_Inline().visit(b) for b in st.body]
+        self.generic_visit(node)
+        return node
+
+    # ---- N-SUPPRESS
+    def visit_With(self, node: ast.With):
+        self.generic_visit(node)
+        if len(node.items) == 1 and node.items[0].optional_vars is None:
+            ce = node.items[0].context_expr
+            if isinstance(ce, ast.Call) and not ce.keywords and ast.unparse(ce.func) in {"contextlib.suppress", "suppress"} and ce.args:
+                etype = ce.args[0] if len(ce.args) == 1 else ast.Tuple(elts=list(ce.args), ctx=ast.Load())
+                handler = ast.ExceptHandler(type=etype, name=None, body=[ast.copy_location(ast.Pass(), node)])
+                return ast.copy_location(ast.Try(body=node.body, handlers=[ast.copy_location(handler, node)], orelse=[], finalbody=[]), node)
+        return node
+
     # ---- N-NOT
     def visit_If(self, node: ast.If):
         self.generic_visit(node)
@@ -119,6 +168,7 @@ class _Normalizer(ast.NodeTransformer):
                 for st in block:
                     if not isinstance(st, (ast.FunctionDef, ast.AsyncFunctionDef, ast.ClassDef)):
                         self._blocks(st, captured)
+                block = self._hoist_walrus(block)
                 block = [self._desugar_ifexp(st) for st in block]
                 for st in block:  # the freshly made branches are blocks too (nothing to fold inside them)
                     pass
@@ -143,6 +193,25 @@ class _Normalizer(ast.NodeTransformer):
             mk = lambda v: ast.copy_location(ast.Assign(targets=[ast.Name(id=st.targets[0].id, ctx=ast.Store())], value=v), st)  # noqa: E731
             return ast.copy_location(ast.If(test=e.test, body=[mk(e.body)], orelse=[mk(e.orelse)]), st)
         return st
+
+    @staticmethod
+    def _hoist_walrus(body: list[ast.stmt]) -> list[ast.stmt]:
+        """N-WALRUS: `if (x := E) <op> ...:` -> `x = E; if x <op> ...:` when the assignment expression is the first
+        thing the test evaluates (the test itself, the left operand of its comparison, or that under `not`)."""
+        out: list[ast.stmt] = []
+        for st in body:
+            if isinstance(st, ast.If):
+                holder, field = st, "test"
+                node = st.test
+                while isinstance(node, ast.UnaryOp) and isinstance(node.op, ast.Not):
+                    holder, field, node = node, "operand", node.operand
+                if isinstance(node, ast.Compare) and isinstance(node.left, ast.NamedExpr):
+                    holder, field, node = node, "left", node.left
+                if isinstance(node, ast.NamedExpr) and isinstance(node.target, ast.Name):
+                    out.append(ast.copy_location(ast.Assign(targets=[ast.Name(id=node.target.id, ctx=ast.Store())], value=node.value), st))
+                    setattr(holder, field, ast.copy_location(ast.Name(id=node.target.id, ctx=ast.Load()), node))
+            out.append(st)
+        return out
 
     def _fold_test_temps(self, body: list[ast.stmt], loads: dict[str, int]) -> list[ast.stmt]:
         """`t = E; if t: ...` -> `if E: ...` when t is read nowhere else in the function."""
@@ -277,7 +346,7 @@ class _Normalizer(ast.NodeTransformer):
         i = 0
         while i < len(out):
             st = out[i]
-            kind = acc = None
+            kind = acc = wrapper = None
             value = st.value if isinstance(st, (ast.Assign, ast.AnnAssign)) else None
             tgt = st.targets[0] if isinstance(st, ast.Assign) and len(st.targets) == 1 else st.target if isinstance(st, ast.AnnAssign) else None
             if isinstance(tgt, ast.Name) and value is not None:
@@ -287,6 +356,9 @@ class _Normalizer(ast.NodeTransformer):
                     kind = "dict"
                 elif isinstance(value, ast.Call) and isinstance(value.func, ast.Name) and value.func.id in {"set", "list", "dict"} and not value.args and not value.keywords:
                     kind = value.func.id
+                elif (isinstance(value, ast.Call) and not value.args and not value.keywords
+                      and (ast.unparse(value.func).split(".")[-1] == "OrderedDict")):
+                    kind, wrapper = "dict", value.func  # OrderedDict(); filled in a loop == OrderedDict({k: v for ...}) (insertion order kept)
                 acc = tgt.id
             if kind is not None:
                 # the next statement that mentions the accumulator must be the feeding loop
@@ -303,7 +375,10 @@ class _Normalizer(ast.NodeTransformer):
                             comp = ast.SetComp(elt=elt, generators=gens)
                         else:
                             comp = ast.ListComp(elt=elt, generators=gens)
-                        new = ast.copy_location(ast.Assign(targets=[ast.Name(id=acc, ctx=ast.Store())], value=ast.copy_location(comp, out[j])), out[j])
+                        comp = ast.copy_location(comp, out[j])
+                        if wrapper is not None:
+                            comp = ast.copy_location(ast.Call(func=wrapper, args=[comp], keywords=[]), out[j])
+                        new = ast.copy_location(ast.Assign(targets=[ast.Name(id=acc, ctx=ast.Store())], value=comp), out[j])
                         out[j] = new
                         del out[i]
                         continue
